@@ -36,8 +36,35 @@ def main() -> int:
     try:
         return fn(tier, seed)
     except Exception:
+        text = traceback.format_exc()
         traceback.print_exc()
-        return 2
+        where = implementation_frame(text)
+        if where is None:
+            return 2
+        # the implementation raised on a generated input on which it completes on the unchanged tree (every layer
+        # handles the exceptions the unchanged code is known to raise): the correspondence no longer checks, and
+        # the run that would have looked for a failing input could not be completed
+        v = fw.Verdict(a.prop, tier, seed, "proof")
+        v.broken(f"correspondence for {a.prop}: the implementation raised out of {where} where the model completes",
+                 {"traceback": text[-6000:], "seed": seed, "tier": tier,
+                  "how_to_replay": f"VERIF_SEED={seed} ./check {a.prop} --tier {tier}"})
+        return v.finish()
+
+
+def implementation_frame(text: str):
+    """the innermost frame of the (remote, if any) traceback that is neither the interpreter's library nor a
+    third-party package; returned when it lies in /repo, i.e. when the implementation itself raised"""
+    import re
+
+    first = text.split("The above exception was the direct cause", 1)[0]
+    frames = re.findall(r'File "([^"]+)", line (\d+), in (\S+)', first)
+    for path, line, fn_ in reversed(frames):
+        if "site-packages" in path or "/lib/python" in path or path.startswith("<"):
+            continue
+        if path.startswith("/repo/"):
+            return f"{path}:{line} ({fn_})"
+        return None
+    return None
 
 
 if __name__ == "__main__":
